@@ -28,6 +28,40 @@ class Proxy:
         return self.run.ok(self.mapping.get(rule, rule), *a, **k)
 
 
+class Sub:
+    """Run another property's whole check inside this one: every rule name is mapped by `rename`, declarations and
+    instance floors of the guest are dropped (the host states its own)."""
+
+    def __init__(self, run, rename):
+        self.run, self.rename = run, rename
+        self.errors = run.errors
+        self.prop = run.prop
+
+    def check(self, cond, rule, where, construct, ok_text, bad_text, loc='', trace=None):
+        return self.run.check(cond, self.rename(rule), where, construct, ok_text, bad_text, loc, trace)
+
+    def finding(self, rule, *a, **k):
+        return self.run.finding(self.rename(rule), *a, **k)
+
+    def ok(self, rule, *a, **k):
+        return self.run.ok(self.rename(rule), *a, **k)
+
+    def group(self, fn, *a, **k):
+        return self.run.group(fn, *a, **k)
+
+    def rule(self, *a, **k):
+        pass
+
+    def trust(self, *a):
+        pass
+
+    def assume(self, *a):
+        pass
+
+    def require_instances(self, rule, minimum):
+        pass
+
+
 def ortho_rules(run, db):
     seen = {}
     for name, direction in (('focus', 'fft2'), ('unfocus', 'ifft2')):
@@ -163,11 +197,12 @@ def check(run, db, tier):
     run.rule('C02.ortho', "focus uses fft2(norm='ortho'), unfocus ifft2(norm='ortho'), with no size argument")
     run.rule('C02.pad', 'both FFT propagators zero-pad through pad2d defaults; pad2d(constant, 0) is zeros plus one copy of the input')
     run.rule('C02.kernel', 'matrix-DFT forward and inverse kernels are complex conjugates with the textbook frequency (so the band-complete pair is the identity)')
-    run.rule('C02.norm', 'matrix-DFT / chirp-Z normalisation is sqrt(1/(N Q)) per axis')
+    run.rule('C02.norm', 'matrix-DFT / chirp-Z normalisation is sqrt(1/(N Q)) per axis; the chirp-Z factors, per-axis FFT work lengths and crops are those of the same unitary kernel (shared with C01.chirp/.axis)')
     run.rule('C02.freespace', 'free-space transfer function: unit modulus, phase linear-homogeneous in z, -i pi lambda z k^2; angular_spectrum == ifft2(fft2(field)*tf)')
     run.group(ortho_rules, run, db)
     proxy = Proxy(run, {'C01.kernel': 'C02.kernel', 'C01.norm': 'C02.norm', 'C01.chirp': 'C02.norm', 'C01.axis': 'C02.norm'})
     run.group(c01.mdft_rules, proxy, db)
+    run.group(c01.czt_rules, proxy, db)
     run.group(freespace_rules, run, db)
     run.require_instances('C02.ortho', 2)
     run.require_instances('C02.pad', 3)
